@@ -86,7 +86,12 @@ type OpResult struct {
 	Count int64
 	Scan  []KV
 	Err   string
+	// At is the logical time (harness-provided stamp) when the call returned; 0 if no stamper.
+	At int
 }
+
+// StampKey is the context key of an optional `func() int` logical clock used to stamp call returns.
+type StampKey struct{}
 
 // Record is the history of one program run.
 type Record struct {
@@ -98,6 +103,8 @@ type Record struct {
 	Committed bool   // End==commit and Commit returned nil
 	Aborted   bool   // an op/open failed and the program rolled back
 	TID       string
+	// EndAt is the logical time when Commit/Rollback returned.
+	EndAt int
 }
 
 type opener func(ctx context.Context, name string, tx sop.Transaction) (btree.BtreeInterface[int, string], error)
@@ -105,6 +112,11 @@ type opener func(ctx context.Context, name string, tx sop.Transaction) (btree.Bt
 // Run executes the program through the public API and returns its record.
 func Run(ctx context.Context, p Prog, stores map[string]StoreSpec) *Record {
 	rec := &Record{Prog: p}
+	stamp := func() int { return 0 }
+	if f, ok := ctx.Value(StampKey{}).(func() int); ok {
+		stamp = f
+	}
+	defer func() { rec.EndAt = stamp() }()
 	tx, err := infs.NewTransaction(ctx, sopenv.Opts(p.Mode))
 	if err != nil {
 		rec.BeginErr = err.Error()
@@ -188,6 +200,7 @@ func Run(ctx context.Context, p Prog, stores map[string]StoreSpec) *Record {
 		default:
 			panic("unknown op " + o.Kind)
 		}
+		r.At = stamp()
 		if e != nil {
 			r.Err = e.Error()
 			rec.Results = append(rec.Results, r)
